@@ -400,13 +400,81 @@ def one_map(run, seed, idx, mods, tmap):
                 break
 
 
+class _FakeDS(object):
+    ystep = 1.0
+
+
+class _FakeGrainSino(object):
+    """what TensorMap.from_grainsinos reads of a grain sinogram: .grain, .recons[method], .ds.ystep"""
+    def __init__(self, g, recon):
+        self.grain = g
+        self.recons = {"iradon": recon}
+        self.ds = _FakeDS()
+
+
+def grainsino_map(run, seed, idx, mods, tmap):
+    """a two-phase map assembled by TensorMap.from_grainsinos from grains that each carry their reference cell
+    (grain.ref_unitcell): the map strain of every grain's voxels is that grain's Biot strain against ITS OWN phase.  The
+    two phases are named both ways round in two builds (the phase numbering inside comes from a set of objects)."""
+    import contextlib, io
+    grain, finite_strain, unitcell = mods
+    r = rng(seed, "C10", "grainsinos", idx)
+    npx = 12
+    cells = [xtal.random_cell(r, xtal.KINDS[int(r.integers(7))]) for _ in range(2)]
+    spec = []
+    for k in range(4):
+        S = gen_stretch(r, float(r.choice([1e-3, 1e-2, 0.05])))
+        spec.append((k % 2, S, xtal.random_rotation(r)))
+    blobs = [(0, 5, 0, 5), (0, 5, 7, 12), (7, 12, 0, 5), (7, 12, 7, 12)]
+    desc = dict(index=idx, kind="from_grainsinos", cells=cells)
+    run.case(("from_grainsinos", idx), nontrivial=True, sample=desc if idx < 2 else None)
+    for swap in (False, True):
+        ucs = [unitcell.unitcell(cells[0], "P"), unitcell.unitcell(cells[1], "P")]
+        ucs[0].name, ucs[1].name = ("zeta", "alpha") if swap else ("alpha", "zeta")
+        sinos, want = [], []
+        for gid, ((ph, S, Rr), (i0, i1, j0, j1)) in enumerate(zip(spec, blobs)):
+            g = grain.grain(np.linalg.inv(ucs[ph].B) @ S @ Rr.T)
+            g.ref_unitcell = ucs[ph]
+            g.gid = gid
+            rec = np.zeros((npx, npx))
+            rec[i0:i1, j0:j1] = 1.0
+            sinos.append(_FakeGrainSino(g, rec))
+            want.append((S - np.eye(3), Rr @ (S - np.eye(3)) @ Rr.T))
+        try:
+            with contextlib.redirect_stdout(io.StringIO()):
+                tm = tmap.TensorMap.from_grainsinos(sinos, method="iradon", cutoff_level=0.1, steps=(1.0, 1.0, 1.0))
+                es, ec, lab, Um = np.asarray(tm.eps_sample), np.asarray(tm.eps_crystal), np.asarray(tm.labels), np.asarray(tm.U)
+        except Exception as e:
+            run.count("from_grainsinos_raised")
+            run.extra.setdefault("from_grainsinos_raised", "%s: %s" % (type(e).__name__, str(e)[:200]))
+            return
+        run.count("from_grainsinos_maps")
+        for gid in range(4):
+            m = lab == gid
+            if not m.any():
+                run.violation("from_grainsinos:grain-missing", "grain %d has no voxel in the map" % gid, desc)
+                return
+            # eps_crystal is eps_sample turned into the voxel's own Busing-Levy frame (which differs from the polar rotation
+            # at second order in the strain): judged through that law, eps_sample against the closed form
+            dc = np.abs(es[m] - np.einsum("nij,njk,nlk->nil", Um[m], ec[m], Um[m])).max()
+            dsn = np.abs(es[m] - want[gid][1]).max()
+            if not (dc <= 1e-9 and dsn <= 1e-9):
+                run.violation("from_grainsinos:strain-against-own-phase", "map built by from_grainsinos (phases named %s): the voxels "
+                              "of grain %d (phase %d) carry eps_crystal / eps_sample that differ from the Biot strain of its known "
+                              "stretch against its own reference cell by %.3g / %.3g"
+                              % ("zeta, alpha" if swap else "alpha, zeta", gid, spec[gid][0], dc, dsn), dict(desc, swap=swap))
+                return
+
+
 def check(run, replay=None):
     from ImageD11 import grain, finite_strain, unitcell
     from ImageD11.sinograms import tensor_map as tmap
     mods = (grain, finite_strain, unitcell)
     if replay is not None:
         cs = replay["case"]
-        if "shape" in cs:
+        if cs.get("kind") == "from_grainsinos":
+            grainsino_map(run, replay["seed"], cs["index"], mods, tmap)
+        elif "shape" in cs:
             one_map(run, replay["seed"], cs["index"], mods, tmap)
         else:
             one_case(run, replay["seed"], cs["index"], mods)
@@ -417,6 +485,9 @@ def check(run, replay=None):
         one_case(run, run.seed, i, mods)
     for i in range(nm):
         one_map(run, run.seed, i, mods, tmap)
+    for i in range(10 if run.tier == "quick" else 200):
+        grainsino_map(run, run.seed, i, mods, tmap)
+    run.require_counter("from_grainsinos_maps", 10)
     run.require_counter("tensors_checked", 1000)
     run.require_counter("map_voxels_checked", 50)
     run.require_counter("tensormap_orders", 10)
